@@ -1267,7 +1267,7 @@ func valueFromIndex(info *mapper.Info, columnKeys []model.ColumnKey) (interface{
 	if len(columnKeys) > 1 {
 		var buf bytes.Buffer
 		enc := gob.NewEncoder(&buf)
-		for _, columnKey := range columnKeys {
+		for i, columnKey := range columnKeys {
 			val, err := valueFromColumnKey(info, columnKey)
 			if err != nil {
 				return "", err
@@ -1280,6 +1280,13 @@ func valueFromIndex(info *mapper.Info, columnKeys []model.ColumnKey) (interface{
 			// if object is a nil pointer dont try to encode it
 			if value.Kind() == reflect.Pointer && value.IsNil() {
 				continue
+			}
+			// the position is part of the index value: with it left out,
+			// the same value in one or another optional column would give
+			// the same index value
+			err = enc.Encode(i)
+			if err != nil {
+				return "", err
 			}
 			err = enc.Encode(val)
 			if err != nil {
